@@ -9,7 +9,7 @@
 EXTENDS Integers, Sequences, TLC
 CONSTANTS NB, MaxLen
 VARIABLES ops, cur, f
-Fields == <<"kind", "chain", "r", "w", "wb", "kh", "kw", "s", "pt", "pl", "pb", "pr", "blk", "lut", "lay">>
+Fields == <<"kind", "chain", "r", "w", "wb", "kh", "kw", "s", "pt", "pl", "pb", "pr", "blk", "lut", "lay", "tile", "tileo", "hi">>
 Vals(fld) ==
   CASE fld = "kind" -> {"dma", "pool", "ew", "conv", "dw", "lutdma"}
     [] fld = "chain" -> 0..1          \* 1: read what the previous operation wrote (producer/consumer pair)
@@ -23,6 +23,9 @@ Vals(fld) ==
     [] fld = "blk" -> 0..3            \* which of the offered block configurations
     [] fld = "lut" -> 0..2            \* 0: no table lookup, 1..2: LUT slot + 1
     [] fld = "lay" -> 0..3            \* bit 0: IFM NHCWB16, bit 1: OFM NHCWB16
+    [] fld = "tile" -> 0..3           \* IFM tiling: 0 one tile, 1 split by height, 2 split by width, 3 three tiles (h1 # h0)
+    [] fld = "tileo" -> 0..1          \* OFM split by height
+    [] fld = "hi" -> 0..1             \* (first operation only) buffers above 4 GiB on Ethos-U65
 Init == ops = <<>> /\ cur = <<>> /\ f = 1
 Pick == /\ Len(ops) < MaxLen
         /\ \E v \in Vals(Fields[f]) :
